@@ -24,10 +24,10 @@ TClearLayer == Ev("cclear_layer") /\ table' = CClearLayer(table, Rec[l].depth) /
 TClear == Ev("cclear") /\ table' = CEmpty /\ UNCHANGED <<store, uv, devs, run>>
 TQuery == Ev("dquery") /\ LET e == Rec[l]
                               front == DFront(store, e.depth, e.key)
-                              exp == IsDominated(front, e.c, e.value, uv) IN
+                              exp == e.key # 0 /\ IsDominated(front, e.c, e.value, uv) IN      \* key 0: the driver's "no key" state
           /\ devs' = Add(devs, (IF e.dominated # exp THEN {"C10 verdict"} ELSE {}) \cup
                                (IF e.dominated /\ exp /\ ~ThresholdSound(front, e.c, e.value, e.threshold, uv) THEN {"C10 threshold"} ELSE {}))
-          /\ store' = (IF e.dominated THEN store ELSE DSet(store, e.depth, e.key, DInsert(front, e.c, e.value, uv)))
+          /\ store' = (IF e.dominated \/ e.key = 0 THEN store ELSE DSet(store, e.depth, e.key, DInsert(front, e.c, e.value, uv)))
           /\ UNCHANGED <<table, uv, run>>
 TDClear == Ev("dclear_layer") /\ store' = DClearLayer(store, Rec[l].depth) /\ UNCHANGED <<table, uv, devs, run>>
 TCmp == Ev("dcmp") /\ LET e == Rec[l] IN
